@@ -150,6 +150,12 @@ W = [
     ("{T} = [(True, 0), (1, False)]", 0),
     ("{T} = {{'k': (1, 2)}}", 0),
     ("{T} = {{'k': (1.0, 2.0)}}", 0),
+    # set displays of >=3 constants are compiled to a frozenset constant: equal-valued, differently typed
+    ("{T} = {{1, 2, 3}}", 1),
+    ("{T} = {{1.0, 2.0, 3.0}}", 1),
+    ("{T} = {{0, 1, 2}}", 0),
+    ("{T} = {{True, False, 2}}", 0),
+    ("{T} = [_e for _e in {{1.0, 2.0, 3.0}}]", 0),
     # an attribute set back to an earlier value between calls of a method that reads it
     ("_o = A(1)\n_r1 = _o.m()\n_o.v = 'late'\n{T} = _o.m()\n_o.v = 1\n_r3 = _o.m()", 0),
     # a global set back to an earlier value between calls of a function that reads it
